@@ -57,6 +57,7 @@ func CDecompress(src []byte, sizeD int) (dst cmem.CArray, err error) {
 	size := int(C.qlz_decompress(c_src, c_dst, c_buf))
 	if size != sizeD {
 		err = fmt.Errorf("fail to alloc for decompress, size %d != %d", sizeD, size)
+		dst.Free()
 		return
 	}
 	dst.Body = dst.Body[:size]
